@@ -40,10 +40,7 @@ shrink = bc.shrink_hist
 
 KNOWN = {
     "labels:presentation": "C04-D20-dotted-label-followup",
-    "complete:case": "C04-D21-address-owner-case",
-    "followup:stale": "C04-stale-pending-resolve",
-    "complete:refresh-only": "C04-refreshed-record-not-new",
-    "order:refresh-only": "C04-refreshed-record-not-new",
+    "complete:refresh-only": "C04-last-second-refresh-not-new",
 }
 
 
